@@ -14,8 +14,22 @@ def nid(x):
     return None
 
 
-def requester_events(run, conn="ws-client#1", client="client#1"):
+def main_labels(run):
+    """Goroutines of an earlier scenario may still hit a hook or two after the next scenario's tracer is installed and so
+    take the first label numbers; the connection objects of *this* run are the ones with (by far) the most events."""
+    import collections
+    cnt = collections.Counter(e["c"] for e in run["events"])
+    def best(prefix, default):
+        c = [(n, l) for l, n in cnt.items() if l.startswith(prefix)]
+        return max(c)[1] if c else default
+    return best("ws-client#", "ws-client#1"), best("client#", "client#1"), best("ws-server#", "ws-server#1")
+
+
+def requester_events(run, conn=None, client=None):
     """returns (list of Coq ev terms, outcomes list [(id, outcome)], notes)"""
+    ml = main_labels(run)
+    conn = conn or ml[0]
+    client = client or ml[1]
     evs = []
     tok2id = {}
     outcomes = {}
@@ -124,7 +138,9 @@ def validate(res, runs, name, family="conn", shards=16):
 
 # ---------------------------------------------------------------- responder (Resp.v)
 
-def responder_events(run, sconn="ws-server#1", cconn="ws-client#1", client="client#1"):
+def responder_events(run, sconn=None, cconn=None, client=None):
+    ml = main_labels(run)
+    sconn, cconn, client = sconn or ml[2], cconn or ml[0], client or ml[1]
     evs = []
     tok2id = {}
     for e in run["events"]:
@@ -175,8 +191,9 @@ RHEADER = "From Coq Require Import List NArith Bool.\nImport ListNotations.\nFro
 
 def validate_responder(res, runs, name, family="conn"):
     import re
-    items = [(r, responder_events(r)) for r in runs if sum(1 for e in r["events"] if e["c"].startswith("ws-server#") and e["p"] == "loop.exit") <= 1
-             and not any(e["c"] == "ws-server#2" for e in r["events"])]
+    def one_server_conn(r):
+        return len({e["c"] for e in r["events"] if e["c"].startswith("ws-server#") and e["p"] in ("call.register", "call.dispatch")}) <= 1
+    items = [(r, responder_events(r)) for r in runs if one_server_conn(r)]
     if not items:
         return [], items
     groups = [items[i::8] for i in range(8)]
@@ -187,6 +204,106 @@ def validate_responder(res, runs, name, family="conn"):
     for (nm, rc, out), g in zip(vlib.run_cases_parallel(jobs), groups):
         m = re.search(r"D\s*=\s*(.*?)\n\s*:\s", out, flags=re.S) if rc == 0 else None
         pairs = re.findall(r"\(\s*(\d+),\s*(\d+)\s*\)", m.group(1)) if m else None
+        if pairs is None or len(pairs) != len(g):
+            res.mismatches.append({"family": family, "error": "cases file %s did not evaluate" % nm, "log": out[-1500:]})
+            continue
+        for (d, i), (r, evs) in zip(pairs, g):
+            if int(d) != 0:
+                bad.append((r, int(d), int(i), evs))
+    return bad, items
+
+
+# ---------------------------------------------------------------- streams (Stream.v)
+
+def stream_events(run, client=None, cconn=None):
+    """events keyed by the subscription's token; channel ids are resolved through och.alloc / resp.chreg"""
+    ml = main_labels(run)
+    client, cconn = client or ml[1], cconn or ml[0]
+    tok_of_id = {}
+    for e in run["events"]:
+        if e["c"] == client and e["p"] == "call.start" and (e["a"][1] or "").endswith("Sub"):
+            args = e["a"][4] if len(e["a"]) > 4 else []
+            i = nid(e["a"][0])
+            if args and i is not None:
+                tok_of_id[i] = args[0]
+    srv_ch = {}      # (server conn, chid) -> token
+    cli_ch = {}      # chid -> token (current registration on the client)
+    pending = []     # tokens of ch.val callbacks whose sink.val is still to come (the executor is sequential)
+    out = []
+    for e in run["events"]:
+        p, c, a = e["p"], e["c"], e["a"] or []
+        if c == "harness":
+            if p == "prod.try":
+                out.append("(%d, ProdTry %d)" % (a[0], a[1]))
+            elif p == "prod.send":
+                out.append("(%d, ProdSent)" % a[0])
+            elif p == "prod.close":
+                out.append("(%d, ProdClose)" % a[0])
+            elif p == "cons.recv":
+                out.append("(%d, ConsRecv %d)" % (a[0], a[1]))
+            elif p == "cons.closed":
+                out.append("(%d, ConsClosed)" % a[0])
+            elif p == "ctx.cancel" and a[0] in tok_of_id.values():
+                out.append("(%d, CtxCancel)" % a[0])
+        elif c.startswith("ws-server#"):
+            if p == "och.alloc":
+                t = tok_of_id.get(nid(a[1]))
+                if t is not None:
+                    srv_ch[(c, nid(a[0]))] = t
+                    out.append("(%d, OchAlloc)" % t)
+            elif p in ("och.reg", "och.val.v", "och.close"):
+                t = srv_ch.get((c, nid(a[0])))
+                if t is None:
+                    out.append("(999999, OchVal 0)")      # a forwarder event for a channel id nobody allocated: not a behaviour
+                elif p == "och.reg":
+                    out.append("(%d, OchReg)" % t)
+                elif p == "och.val.v":
+                    out.append("(%d, OchVal %d)" % (t, a[1]))
+                else:
+                    out.append("(%d, OchClose)" % t)
+        elif c == cconn:
+            if p == "resp.chreg":
+                t = tok_of_id.get(nid(a[1]))
+                if t is not None:
+                    cli_ch[nid(a[0])] = t
+                    out.append("(%d, ChReg)" % t)
+            elif p in ("ch.val", "ch.close", "cc.close"):
+                t = cli_ch.get(nid(a[0]))
+                if t is None:
+                    out.append("(999999, ChVal)")
+                elif p == "ch.val":
+                    out.append("(%d, ChVal)" % t)
+                    pending = [t]
+                elif p == "ch.close":
+                    out.append("(%d, ChClose)" % t)
+                else:
+                    out.append("(%d, CcClose)" % t)
+        elif c == client and p == "sink.val":
+            if pending:
+                out.append("(%d, SinkVal %d)" % (pending[0], a[0]))
+                pending = []
+            else:
+                out.append("(999999, SinkVal %d)" % a[0])
+    return out
+
+
+SHEADER = "From Coq Require Import List NArith ZArith Bool.\nImport ListNotations.\nFrom JR Require Import Stream AuthCases StreamCases.\nOpen Scope Z_scope.\n"
+
+
+def validate_streams(res, runs, name, family="conn"):
+    import re
+    items = [(r, stream_events(r)) for r in runs]
+    items = [(r, e) for r, e in items if e]
+    if not items:
+        return [], items
+    groups = [items[i::16] for i in range(16)]
+    groups = [g for g in groups if g]
+    jobs = [("cases_%ss_%d" % (name, si), SHEADER + "Definition cases : list (list (N * sev)) := [\n%s\n].\nDefinition D := Eval vm_compute in map scase_diag cases.\nPrint D.\n"
+             % ";\n".join("[" + "; ".join(ev.replace("(", "(%s%%N, " % ev[1:ev.index(",")], 1).replace("(%s%%N, %s," % (ev[1:ev.index(",")], ev[1:ev.index(",")]), "(%s%%N," % ev[1:ev.index(",")], 1) for ev in evs) + "]" for _, evs in g)) for si, g in enumerate(groups)]
+    bad = []
+    for (nm, rc, out), g in zip(vlib.run_cases_parallel(jobs), groups):
+        m = re.search(r"D\s*=\s*(.*?)\n\s*:\s", out, flags=re.S) if rc == 0 else None
+        pairs = re.findall(r"\(\s*(\d+)(?:%N)?,\s*(\d+)(?:%N)?\s*\)", m.group(1)) if m else None
         if pairs is None or len(pairs) != len(g):
             res.mismatches.append({"family": family, "error": "cases file %s did not evaluate" % nm, "log": out[-1500:]})
             continue
